@@ -85,6 +85,15 @@ def check(ctx):
                 lines.append(call(sh + "_script", [ord(c) for c in text]))
         lines.append(call("argv", s, n=rng.choice([0, 1, 2, 3, 10, 11])))
         lines.append(call("argv_n", s, n=rng.choice([0, 1, 2, 3, 10])))
+    # creader: texts of lines with LF / CR LF endings, empty lines, one-character lines, with and without a terminator after the last line
+    # (no NUL bytes); skip over a character set from every cursor position of short texts
+    pieces = ["", "a", "ab", " x ", "\r", "a\r", "\r\r", "cmd 1", "\t"]
+    for i in range(1500 if ctx.thorough else 120):
+        text = "".join(rng.choice(pieces) + rng.choice(["\n", "\n", "\r\n", "\n\n"]) for _ in range(rng.randrange(0, 6))) + rng.choice(["", "", "z", "tail", "q\r", " "])
+        lines.append(call("creader_lines", [ord(c) for c in text]))
+        if i % 3 == 0:
+            t2 = [rng.choice([32, 9, 10, 13, 97, 255]) for _ in range(rng.randrange(0, 8))]
+            lines.append(call("creader_skip", t2, a=rng.choice([[9, 10, 13, 32], [97], [255, 32], []]), n=rng.randrange(0, len(t2) + 1)))
     # help texts: through the write callback (mshell) and into caller-supplied buffers of every small size (rshell; a buffer of at
     # least one byte, for the tables form two: room for the terminators)
     for tabn in (1, 2, 3):
